@@ -112,7 +112,7 @@ def translate_fragment(name, cpp, opaque, where="setup"):
 
 
 def _translate_fragment(name, cpp, opaque, where="setup"):
-    decls = "".join(f"extern {ctype} {ident};\n" for ident, ctype in opaque.items())
+    decls = "".join((f"{ctype[:-2]} {ident}();\n" if ctype.endswith("()") else f"extern {ctype} {ident};\n") for ident, ctype in opaque.items())
     lines = cpp.split("\n")
     # opaque identifiers are declared right after the includes
     k = max([i for i, l in enumerate(lines) if l.startswith("#include")] + [0]) + 1
@@ -120,11 +120,22 @@ def _translate_fragment(name, cpp, opaque, where="setup"):
     tu, key = cxx2py.run_clang(text)
     T = cxx2py.Translator(tu)
     pyname = "frag_" + name
-    src = T.fragment("setup" if where == "setup" else "loop", pyname=pyname, params=[(i, t) for i, t in opaque.items()])
+    params = [(i, t) for i, t in opaque.items() if not t.endswith("()")]
+    src = T.fragment("setup" if where == "setup" else "loop", pyname=pyname, params=params)
+    extra = {}
+    for fname in T.functions:
+        if fname not in ("setup", "loop"):
+            extra[fname] = T.function(fname)
+    if where == "loop" or True:
+        try:
+            extra["whole_setup"] = T.function("setup").replace("def setup(", f"def setup_{name}(")
+        except Exception:
+            pass
     gk = {g: k for g, k in T.global_kinds().items() if g not in opaque}
     return {"py": src, "pyname": pyname, "globals": gk, "inits": T.global_inits(), "sha": hashlib.sha256(cpp.encode()).hexdigest(),
             "cpp": cpp, "prims": sorted(T.used_prims), "externs": sorted(T.externs_called), "translator": T,
-            "params": [(i, cxx2py.kind_of_type(t)) for i, t in opaque.items()], "used_globals": T.out_funcs[pyname]["globals"]}
+            "params": [(i, cxx2py.kind_of_type(t)) for i, t in params], "used_globals": T.out_funcs[pyname]["globals"],
+            "functions": extra, "opaque_kinds": {i: cxx2py.kind_of_type(t) for i, t in params}}
 
 
 def register_module(relkey, texts):
